@@ -386,7 +386,7 @@ func (w *world) snapshot(o *stepOut) {
 	o.Mappings = [][]int64{}
 	for _, m := range all {
 		o.Mappings = append(o.Mappings, []int64{int64(w.mapIdx[m.ID]), w.idxOfClient(m.ListenClientID), w.idxOfClient(m.TargetClientID),
-			m.TrafficStats.BytesSent, m.TrafficStats.BytesReceived})
+			m.TrafficStats.BytesSent, m.TrafficStats.BytesReceived, b2i(m.Status == models.MappingStatusActive)})
 	}
 	sort.Slice(o.Mappings, func(i, j int) bool { return o.Mappings[i][0] < o.Mappings[j][0] })
 	o.Codes = [][]int64{}
@@ -483,7 +483,9 @@ func (w *world) body(s *stepSpec, subSeq int) string {
 	}
 	switch packet.CommandType(s.Cmd) {
 	case packet.MappingList:
-		m["direction"] = []string{"", "outbound", "inbound"}[s.Dir%3]
+		if s.Dir%5 != 4 { // 4: the field is absent
+			m["direction"] = []string{"", "outbound", "inbound", "all"}[s.Dir%5]
+		}
 	case packet.MappingGet, packet.MappingDelete, packet.HTTPDomainDelete:
 		m["mapping_id"] = w.objID(s.Cmd, s.Obj)
 	case packet.ConnectionCodeGenerate:
@@ -587,7 +589,7 @@ func runStep(w *world, s *stepSpec, before *stepOut) stepOut {
 	o := stepOut{PropOK: true}
 	cmdSeq++
 	if s.Ev != "" {
-		if s.Ci <= 0 || s.Ci >= len(w.connID) {
+		if (s.Ev == "reauth" || s.Ev == "remove") && (s.Ci <= 0 || s.Ci >= len(w.connID)) {
 			o.Err = "bad ci"
 			return o
 		}
@@ -604,6 +606,40 @@ func runStep(w *world, s *stepSpec, before *stepOut) stepOut {
 			}
 			if err := w.fx.Session.UpdateControlConnectionAuth(w.connID[s.Ci], w.clientID[s.As], ""); err != nil {
 				o.Err = err.Error()
+			}
+		case "delmap", "setparty", "setactive":
+			// authorisation-relevant state changes made behind the commands' back (management API / migration / expiry cleanup)
+			if s.Obj < 0 || s.Obj >= len(w.mapIDs) {
+				break // no such mapping (yet): nothing changes
+			}
+			id := w.mapIDs[s.Obj]
+			switch s.Ev {
+			case "delmap":
+				_ = w.fx.Cloud.DeletePortMapping(id)
+			case "setactive":
+				st := models.MappingStatusInactive
+				if s.As != 0 {
+					st = models.MappingStatusActive
+				}
+				_ = w.fx.Cloud.UpdatePortMappingStatus(id, st) // a mapping that is gone already: nothing to (de)activate
+			case "setparty":
+				// what CloudControl.MigrateClientMappings does: the record's party is rewritten, the per-client indexes are not
+				pm, err := w.fx.Cloud.GetPortMapping(id)
+				if err != nil {
+					break // already deleted: nothing to hand over
+				}
+				if s.As < 0 || s.As >= len(w.clientID) {
+					o.Err = "bad as"
+					break
+				}
+				if s.Ci == 0 {
+					pm.ListenClientID = w.clientID[s.As]
+				} else {
+					pm.TargetClientID = w.clientID[s.As]
+				}
+				if err := w.fx.Cloud.UpdatePortMapping(pm); err != nil {
+					o.Err = err.Error()
+				}
 			}
 		case "remove":
 			// registry entry gone, stream still open: the window KickOldConnection / CleanupStale leave between removing the entry
@@ -843,6 +879,13 @@ loop:
 //   (d) a delivery to client T is justified by a mapping (listen = X, target = T), or (notify) stamped with X.
 // ---------------------------------------------------------------------------------------------
 
+func b2i(b bool) int64 {
+	if b {
+		return 1
+	}
+	return 0
+}
+
 func findRow(rows [][]int64, idx int64) []int64 {
 	for _, r := range rows {
 		if r[0] == idx {
@@ -960,6 +1003,8 @@ func evalProperty(w *world, s *stepSpec, before *stepOut, o *stepOut) {
 		}
 		if !ok && ct >= 1000 {
 			fail("relayed-to-other-node", fmt.Sprintf("relay code %d (1035 TunnelOpen broadcast with SecretKey / 1121 DNS query frame / 1051 config push) addressed to client %d on another node on behalf of connection identity %d, which has no mapping (listen=%d,target=%d): %v", ct, t, x, x, t, w.relayDetail))
+		} else if !ok && s.Tgt == 0 && (packet.CommandType(s.Cmd) == packet.DNSResolve || packet.CommandType(s.Cmd) == packet.DNSQuery) {
+			fail("reached-default-target", fmt.Sprintf("DNS request with the DEFAULT target (target_client_id <= 0) forwarded to client %d on behalf of connection identity %d, which is not the listen client of any mapping towards it now", t, x))
 		} else if !ok {
 			fail("reached-client", fmt.Sprintf("command type %d forwarded to client %d by connection identity %d without a mapping (listen=%d,target=%d)", ct, t, x, x, t))
 		}
